@@ -5,6 +5,14 @@ import json, os, subprocess
 ROOT = os.path.dirname(os.path.dirname(os.path.abspath(__file__)))
 
 CLAIMED = {
+  "C20": dict(engine="E1 netsim1", level="exploration", design="§4 C20, §2.2",
+      technique="deterministic simulation of two real Plexers on a paused single-thread tokio runtime over seeded in-memory pipes (stall/delay/short-read/partial-write/back-pressure schedules); per-stream FIFO exactly-once history oracle + bounded-liveness watchdog",
+      text="Seeded schedules of up to 6 agents x 200 uniquely stamped chunks (sizes 0..65535) through two real multiplexers; every pipe poll and task poll is a scheduling point decided by the run's PRNG; each endpoint must receive exactly its counterpart's chunks in order and nothing else, and the run must quiesce before the simulated-time watchdog.",
+      note="Single-threaded await-granularity interleavings only (no memory-model races). Socket replaced by SimPipe behind hook H1; tokio's mpsc/time/scheduler are real."),
+  "C25": dict(engine="E2 p2psim + E1 netsim1", level="exploration", design="§4 C25",
+      technique="deterministic simulation of two negotiating nodes with seeded version tables; negotiation oracle (spec::negotiate) on the responder's reply",
+      text="Seeded table pairs (0..16 versions, overlapping/disjoint, equal/different magics and data shapes) are negotiated by the real responders of both stacks; an accepted version must be common, the highest common one, with agreeing magic; disjoint tables must be refused with VersionMismatch listing the responder's versions.",
+      note="A refusal while a common version exists is allowed (statement constrains acceptances and the disjoint case)."),
   "C27": dict(engine="E2 p2psim", level="exploration", design="§4 C27, §2.3",
       technique="deterministic discrete-event simulation of InitiatorBehavior vs. simulated interface and peers with fault injection (connect failure, reset, Byzantine messages); set/limit/ban invariants after every step",
       text="Seeded histories of commands, housekeeping passes and interface events (faithful connection model, 1..3 and 1..20 peers, small limits) drive the real InitiatorBehavior; after every step the four promotion sets are checked for disjointness and limits, the banned set for monotonicity, and every Connect output is checked, at the instant it is produced, against the set of peers banned so far.",
@@ -27,7 +35,7 @@ CLAIMED = {
       note="Trusts blake2b/ed25519 of pallas-crypto (used on both sides) and the hand-written strict CBOR walker. Single actor; no scheduler/clock/transport."),
 }
 
-PENDING = {k: 'claimed in DESIGN.md; check under construction (not yet registered)' for k in 'C09 C12 C13 C20 C21 C22 C23 C25 C26 C39 C40 C42 C43'.split()}  # id -> reason while a claimed check is still being built
+PENDING = {k: 'claimed in DESIGN.md; check under construction (not yet registered)' for k in 'C09 C12 C13 C21 C22 C23 C26 C39 C40 C42 C43'.split()}  # id -> reason while a claimed check is still being built
 
 NA = {
  "C01": "Flat encoder/decoder are in-memory functions of a value sequence; bit alignment depends on the values written, not on any schedule, stream, clock or fault.",
